@@ -665,6 +665,22 @@ def run_layout(payload):
         r['pre_reads'] = {'temp_fields': rd(pre, 'temp_fields')}
         r['loads'] = loads
         r['nparams_slots'] = sum(int(np.prod(p.shape or (1,))) for p in V.params)
+
+        # the emitted statements in order (tie of coq/C01/Kernel.v's program model to the text): (lhs, op, reads)
+        def stmts(sec):
+            res = []
+            for line in sec.split('\n'):
+                stl = line.strip()
+                if not stl or stl.startswith(('cdef ', 'for ', '#', '@', 'fields = ', 'temp_fields = ', 'double', 'size_t', ')')):
+                    continue
+                mm = re.match(r'^([A-Za-z_]\w*(?:\[\d+\])?)\s*(\+=|=)\s*(.+)$', stl)
+                if not mm:
+                    continue
+                lhs, op, rhs = mm.groups()
+                res.append([lhs, op, re.findall(r'(?<![\w\.])([A-Za-z_]\w*(?:\[\d+\])?)', rhs)])
+            return res
+        r['kernel_stmts'] = stmts(kern)
+        r['pre_stmts'] = stmts(pre)
         # the number of Gauss nodes per span the generated __init__ computes, evaluated on degree lists
         m = re.search(r'(?m)^\s*self\.nqp = (.*)$', init)
         one_space = bool(re.search(r'(?m)^\s*kvs1 = kvs0\s*$', init))
